@@ -1,6 +1,8 @@
 import Lean.Data.Json
 import Ktm.Driver
 import Ktm.DriverHB
+import Ktm.DriverTF
+import Ktm.DriverMetrics
 /-! Dispatcher of the line protocol: every line carries a `suite` field; `op = init` (re)starts the
     suite's state. -/
 open Lean
@@ -24,6 +26,8 @@ def handleLine (st : DSt) (line : String) : DSt × String :=
       let cur : Option DriverHB.St := match st with | .hb s => some s | _ => Option.none
       let (s', out) := DriverHB.handle cur j
       (match s' with | some s => .hb s | Option.none => .none, out)
+    | "transforms" => (st, DriverTF.handle j)
+    | "metrics" => (st, DriverMetrics.handle j)
     | s => (st, s!"bad-suite {s}")
 
 end DriverAll
